@@ -737,10 +737,11 @@ def run_fixture(case, ctx):
             netgen.reset_sim_params()
 
 
+SHAPE_NAMES = list(wbk.SHAPES) + ['loose-other-value', 'route-names-retyped-roadm-by-city']
+
+
 @st.composite
-def shape_case(draw):
-    shapes = list(wbk.SHAPES) + ['loose-other-value', 'route-names-retyped-roadm-by-city']
-    shape = shapes[draw(st.integers(0, 2 ** 24)) % len(shapes)]
+def shape_case(draw, shape):
     if shape not in ('loose-other-value', 'route-names-retyped-roadm-by-city'):
         return draw(wbk.shape_model(shapes=(shape,)))
     m = draw(wbk.valid_model(services=False))
@@ -787,7 +788,7 @@ CHECKS = [
           doc='valid workbooks: .xlsx and stubbed .xls conversion vs model oracle, load+design, service sheet'),
     Check('invalid', wbk.invalid_model(), run_invalid, quick=300, thorough=8000,
           doc='valid model + one documented rule violation => NetworkTopologyError on both branches'),
-    Check('shapes', shape_case(), run_shape, quick=80, thorough=1500,
+    Check('shapes', [shape_case(x) for x in SHAPE_NAMES], run_shape, quick=84, thorough=1540,     # one stratum per shape
           doc='FUSED degree != 2, self-link, re-typed ROADM with Eqpt rows, numeric impairment id, loose? values'),
     Check('fixtures', st.sampled_from(sorted(FIXTURES)).map(lambda p: {'fixture': p}), run_fixture,
           quick=len(FIXTURES), thorough=len(FIXTURES), doc='shipped .xls/.xlsx workbooks read unchanged'),
